@@ -41,6 +41,12 @@ ExpectedValueOK(sol) ==
      CASE x.kind = "arith" -> IREqv(ArithValue(sol, TopItem(sol, x.var)), IROf(x.value))
        [] x.kind = "bool" -> BoolValue(sol, TopItem(sol, x.var)) = x.bvalue
        [] OTHER -> TRUE
+\* C01: a top-level constraint 'var >= value' on a fresh variable, which the generators append to every part of a problem
+\* that is read after a solve(): once the variable exists the reported solution must satisfy the constraint (a statement
+\* read at top level holds unconditionally, whatever the solver did before)
+SentinelsHold(sol) ==
+  \A x \in {y \in ExpectsFor(sol.name) : y.kind = "sentinel"} :
+     (\E p \in SeqRange(sol.tops) : p[1] = x.var) => IRGe(ArithValue(sol, TopItem(sol, x.var)), IROf(x.value))
 \* C17: object variables. Names of the top-level instances denoted by a set of item ids
 NamesOf(sol, ids) == {p[1] : p \in {q \in SeqRange(sol.tops) : q[2] \in ids}}
 InitialDomain(sol, id) ==
@@ -121,6 +127,7 @@ Next ==
           [] ev.e = "solution" ->
                /\ SolutionOK(ev)
                /\ Chk({"C16", "C17"}, "ExpectedValue", ExpectedValueOK(ev) = TRUE)
+               /\ Chk({"C01", "C02", "C03", "C04", "C05", "C06"}, "TopLevelConstraintHolds", SentinelsHold(ev) = TRUE)
                /\ ObjExpectOK(ev)
                /\ solved' = solved + 1 /\ UNCHANGED <<verdicts, expects, xs>>
           [] ev.e \in {"done", "timeout", "wide", "error", "rejected"} -> UNCHANGED <<solved, verdicts, expects, xs>>
